@@ -13,7 +13,7 @@ def boundaries(spec):
 
 def run(res, replay=None):
     rng = random.Random(res.seed)
-    res.rule = ('cdf stream: random configurations (one locus: n<=4, 1-3 demes, three models, 1-3 epochs; two loci: n<=3, '
+    res.rule = ('cdf stream: random configurations (one locus: n<=4, 1-3 demes, three models, 1-3 epochs, half of them built with an early end_time on the Coalescent; two loci: n<=3, '
                 'Kingman); cdf at 0, interior points, exact epoch boundaries and beyond the last change (scalar and array '
                 'calls) compared with the Gallina model in binary64 (1e-9 absolute); quantile(q) for q in {0.05, 0.5, 0.9, '
                 '0.99}: the MODEL cdf at the returned time must be within 1e-5 of q; pdf(t, dx=2^-12) against the same difference '
@@ -30,7 +30,10 @@ def run(res, replay=None):
                 s = gen.rand_spec(rng, n_total=rng.choice([2, 3]), n_demes=1, n_epochs=rng.choice([1, 2]), loci=2, end_time='never')
                 s['recombination_rate'] = rng.choice([0.0, 0.5, 2.0])
             else:
-                s = gen.rand_spec(rng, n_total=rng.choice([2, 2, 3, 4]), n_epochs=rng.choice([1, 2, 3]), end_time='never')
+                # every other one-locus configuration carries its own (early) end time: the end time bounds the window
+                # over which MOMENTS accumulate; the cdf / density / quantiles still describe the full time to the MRCA
+                s = gen.rand_spec(rng, n_total=rng.choice([2, 2, 3, 4]), n_epochs=rng.choice([1, 2, 3]),
+                                  end_time=('always' if i % 2 == 0 else 'never'))
             specs.append(s)
     qs_levels = [0.05, 0.5, 0.9, 0.99]
     cases = []
